@@ -7,6 +7,7 @@
   registry `reg` and the pool `gs` (every genome that ever lived).  Helper lemmas: Proofs/RegistryLemmas.lean.
 -/
 import GoNeat.Proofs.RegistryLemmas
+import GoNeat.Proofs.CopyBinds
 import GoNeat.Props.C05
 
 set_option linter.unusedSectionVars false
@@ -578,5 +579,147 @@ theorem same_request_same_numbers (reg reg1 reg2 reg3 : Reg W) (s d : Int) (hext
     obtain ⟨rfl, hk⟩ := Prod.mk.inj hnums
     obtain ⟨rfl, rfl⟩ := Prod.mk.inj hk
     exact ⟨rfl, rfl, rfl, rfl⟩
+
+/-! ### C03: copy operators introduce no new binding, hence preserve the invariant -/
+
+/-- the result carries exactly the bindings of the input (same lists of `(inn,src,dst,recur)` and `(id,kind)`) -/
+def SameBinds (g g' : Genome W) : Prop := gb g' = gb g ∧ gr g' = gr g
+
+theorem SameBinds.refl (g : Genome W) : SameBinds g g := ⟨rfl, rfl⟩
+theorem SameBinds.trans {a b c : Genome W} (h1 : SameBinds a b) (h2 : SameBinds b c) : SameBinds a c :=
+  ⟨h2.1.trans h1.1, h2.2.trans h1.2⟩
+
+theorem skel_eq_bind : (C05.Gene.skel : Gene W → _) = geneBind := rfl
+
+theorem reenableFirst_binds (l : List (Gene W)) : (reenableFirst l).map geneBind = l.map geneBind := by
+  induction l with
+  | nil => rfl
+  | cons x xs ih =>
+    unfold reenableFirst
+    split
+    · rfl
+    · simp only [List.map_cons, ih]
+
+/-- **C03 (parametric mutators).** Weight, trait, toggle-enable and re-enable mutations leave every binding as it is. -/
+theorem parametric_sameBinds (g g' : Genome W) (o : MutOpts W) (power rate : W) (mt : WeightMutator) (times : Nat)
+    (rs rs' : List Nat) :
+    (mutateLinkWeights g power rate mt rs = .ok (g', rs') → SameBinds g g') ∧
+    (mutateRandomTrait g o rs = .ok (g', rs') → SameBinds g g') ∧
+    (mutateLinkTrait g times rs = .ok (g', rs') → SameBinds g g') ∧
+    (mutateNodeTrait g times rs = .ok (g', rs') → SameBinds g g') ∧
+    (mutateToggleEnable g times rs = .ok (g', rs') → SameBinds g g') ∧
+    (mutateGeneReEnable g = .ok g' → SameBinds g g') := by
+  refine ⟨fun h => ?_, fun h => ?_, fun h => ?_, fun h => ?_, fun h => ?_, fun h => ?_⟩
+  · obtain ⟨_, hn, _, _, hc, _⟩ := C05.mutateLinkWeights_paramOnly g g' power rate mt rs rs' h
+    refine ⟨?_, by unfold gr; rw [hn]⟩
+    have := congrArg (List.map (fun (c : Int × Int × Int × Bool × Bool × Option Int) => (c.1, c.2.1, c.2.2.1, c.2.2.2.1))) hc
+    simp only [List.map_map] at this
+    exact this
+  · obtain ⟨hn, hg, _, _⟩ := C05.mutateRandomTrait_paramOnly g g' o rs rs' h
+    exact ⟨by unfold gb; rw [hg], by unfold gr; rw [hn]⟩
+  · obtain ⟨hn, _, _, hs, _, _⟩ := C05.mutateLinkTrait_paramOnly times g g' rs rs' h
+    exact ⟨by rw [skel_eq_bind] at hs; exact hs, by unfold gr; rw [hn]⟩
+  · obtain ⟨hg, _, _, hn⟩ := C05.mutateNodeTrait_paramOnly times g g' rs rs' h
+    refine ⟨by unfold gb; rw [hg], ?_⟩
+    have := congrArg (List.map (fun (c : Int × Nat × Nat) => (c.1, c.2.1))) hn
+    simp only [List.map_map] at this
+    exact this
+  · obtain ⟨hn, _, _, hs, _⟩ := C05.mutateToggleEnable_spec times g g' rs rs' h
+    exact ⟨by rw [skel_eq_bind] at hs; exact hs, by unfold gr; rw [hn]⟩
+  · obtain ⟨hn, _, _, hg⟩ := C05.mutateGeneReEnable_spec g g' h
+    exact ⟨by unfold gb; rw [hg]; exact reenableFirst_binds _, by unfold gr; rw [hn]⟩
+
+/-- one stage of `mutateAllNonstructural`: draw, then maybe apply `f` -/
+theorem stage_sameBinds (prob : W) (f : Genome W → Rand (Genome W))
+    (hf : ∀ g g' rs rs', f g rs = .ok (g', rs') → SameBinds g g') (g g' : Genome W) (rs rs' : List Nat)
+    (h : (match Rand.float64 (W := W) rs with
+          | .error e => (.error e : Except Stop (Genome W × List Nat))
+          | .ok (x, rs1) => if lt x prob then f g rs1 else .ok (g, rs1)) = .ok (g', rs')) : SameBinds g g' := by
+  split at h
+  · cases h
+  · split at h
+    · exact hf _ _ _ _ h
+    · simp only [Except.ok.injEq, Prod.mk.injEq] at h
+      obtain ⟨rfl, _⟩ := h
+      exact .refl _
+
+theorem mutateAllNonstructural_sameBinds (g g' : Genome W) (o : MutOpts W) (rs rs' : List Nat)
+    (h : mutateAllNonstructural g o rs = .ok (g', rs')) : SameBinds g g' := by
+  unfold mutateAllNonstructural at h
+  simp only at h
+  split at h
+  · cases h
+  · rename_i g1 rs1 h1
+    have s1 := stage_sameBinds _ _ (fun a b c d hh => (parametric_sameBinds a b o zero zero .gaussian 0 c d).2.1 hh) _ _ _ _ h1
+    split at h
+    · cases h
+    · rename_i g2 rs2 h2
+      have s2 := stage_sameBinds _ _ (fun a b c d hh => (parametric_sameBinds a b o zero zero .gaussian 1 c d).2.2.1 hh) _ _ _ _ h2
+      split at h
+      · cases h
+      · rename_i g3 rs3 h3
+        have s3 := stage_sameBinds _ _ (fun a b c d hh => (parametric_sameBinds a b o zero zero .gaussian 1 c d).2.2.2.1 hh) _ _ _ _ h3
+        split at h
+        · cases h
+        · rename_i g4 rs4 h4
+          have s4 := stage_sameBinds _ _ (fun a b c d hh => (parametric_sameBinds a b o o.weightMutPower one .gaussian 1 c d).1 hh) _ _ _ _ h4
+          split at h
+          · cases h
+          · rename_i g5 rs5 h5
+            have s5 := stage_sameBinds _ _ (fun a b c d hh => (parametric_sameBinds a b o zero zero .gaussian 1 c d).2.2.2.2.1 hh) _ _ _ _ h5
+            have s6 : SameBinds g5 g' := by
+              split at h
+              · cases h
+              · split at h
+                · split at h
+                  · cases h
+                  · rename_i gg hre
+                    simp only [Except.ok.injEq, Prod.mk.injEq] at h
+                    obtain ⟨rfl, _⟩ := h
+                    exact (parametric_sameBinds g5 gg o zero zero .gaussian 1 rs rs).2.2.2.2.2 hre
+                · simp only [Except.ok.injEq, Prod.mk.injEq] at h
+                  obtain ⟨rfl, _⟩ := h
+                  exact .refl _
+            exact ((((s1.trans s2).trans s3).trans s4).trans s5).trans s6
+
+/-- adding a genome all of whose bindings the pool already holds keeps the invariant -/
+theorem Inv.add_copy {reg : Reg W} {gs : List (Genome W)} (h : Inv reg gs) (g' : Genome W)
+    (hb : ∀ b ∈ gb g', b ∈ binds gs) (hr : ∀ r ∈ gr g', r ∈ roles gs) : Inv reg (g' :: gs) :=
+  Inv.of_local (InvB.add_known h hb hr)
+
+theorem Inv.add_same {reg : Reg W} {gs : List (Genome W)} (h : Inv reg gs) {g g' : Genome W} (hg : g ∈ gs)
+    (hs : SameBinds g g') : Inv reg (g' :: gs) :=
+  h.add_copy g' (fun b hb => by rw [hs.1] at hb; obtain ⟨x, hx, rfl⟩ := List.mem_map.mp hb; exact mem_binds_of_mem hg hx)
+    (fun r hr => by rw [hs.2] at hr; obtain ⟨x, hx, rfl⟩ := List.mem_map.mp hr; exact mem_roles_of_mem hg hx)
+
+/-- **C03 (duplicate and the parametric mutators preserve the invariant).** -/
+theorem copy_consistent (reg : Reg W) (gs : List (Genome W)) (hinv : Inv reg gs) (g g' : Genome W) (hg : g ∈ gs)
+    (o : MutOpts W) (id : Int) (rs rs' : List Nat) :
+    (g.duplicate id = .ok g' → Inv reg (g' :: gs)) ∧
+    (mutateAllNonstructural g o rs = .ok (g', rs') → Inv reg (g' :: gs)) ∧
+    (∀ power rate mt, mutateLinkWeights g power rate mt rs = .ok (g', rs') → Inv reg (g' :: gs)) :=
+  ⟨fun h => hinv.add_same hg (by obtain ⟨a, b⟩ := duplicate_binds g g' id h; exact ⟨a, b⟩),
+   fun h => hinv.add_same hg (mutateAllNonstructural_sameBinds g g' o rs rs' h),
+   fun power rate mt h => hinv.add_same hg ((parametric_sameBinds g g' o power rate mt 0 rs rs').1 h)⟩
+
+/-- **C03 (crossover).** A child of any of the three crossovers of two pool members carries only bindings of its
+    parents - the averaging operators pick each endpoint and the flag of a matched gene from either parent, which are
+    equal because the pool is consistent - hence the invariant is preserved.  No well-formedness hypothesis. -/
+theorem mate_consistent (reg : Reg W) (gs : List (Genome W)) (hinv : Inv reg gs) (p1 p2 c : Genome W) (h1 : p1 ∈ gs) (h2 : p2 ∈ gs)
+    (id : Int) (f1 f2 : W) (rs rs' : List Nat) :
+    (mateMultipoint p1 p2 id f1 f2 rs = .ok (c, rs') → Inv reg (c :: gs)) ∧
+    (mateMultipointAvg p1 p2 id f1 f2 rs = .ok (c, rs') → Inv reg (c :: gs)) ∧
+    (mateSinglePoint p1 p2 id rs = .ok (c, rs') → Inv reg (c :: gs)) := by
+  have hp1 : ∀ b ∈ p1.genes.map geneBind, b ∈ binds gs := fun b hb => by
+    obtain ⟨x, hx, rfl⟩ := List.mem_map.mp hb; exact mem_binds_of_mem h1 hx
+  have hq1 : ∀ r ∈ p1.nodes.map nodeRole, r ∈ roles gs := fun r hr => by
+    obtain ⟨x, hx, rfl⟩ := List.mem_map.mp hr; exact mem_roles_of_mem h1 hx
+  have hp2 : ∀ b ∈ p2.genes.map geneBind, b ∈ binds gs := fun b hb => by
+    obtain ⟨x, hx, rfl⟩ := List.mem_map.mp hb; exact mem_binds_of_mem h2 hx
+  have hq2 : ∀ r ∈ p2.nodes.map nodeRole, r ∈ roles gs := fun r hr => by
+    obtain ⟨x, hx, rfl⟩ := List.mem_map.mp hr; exact mem_roles_of_mem h2 hx
+  obtain ⟨m1, m2, m3⟩ := mate_from hinv.genes p1 p2 id f1 f2 rs rs' c hp1 hq1 hp2 hq2
+  exact ⟨fun h => hinv.add_copy c (m1 h).1 (m1 h).2, fun h => hinv.add_copy c (m2 h).1 (m2 h).2,
+         fun h => hinv.add_copy c (m3 h).1 (m3 h).2⟩
 
 end GoNeat.C03
